@@ -270,3 +270,35 @@ def check_conv(ctx, rule_rt='AGREE-3'):
             got = _attr(Ir, out, 'apertures', fr)
             ctx.expect(got is None, rule_rt, '%s: apertures stay absent' % tag, where_, 'absent parts stay absent', 'apertures read back as %r' % (got,), 'absent-apertures')
     return decided
+
+
+class TrialCtx:
+    """buffers the verdicts of one scenario so that the caller can keep them (commit) or drop them in favour of other scenarios"""
+    def __init__(self, ctx, suffix=''):
+        self._ctx, self._suffix, self._calls = ctx, suffix, []
+        self.n_undecided = self.n_violations = 0
+
+    def __getattr__(self, name):
+        return getattr(self._ctx, name)
+
+    def ok(self, rule, instance, where, detail, **kw):
+        self._calls.append(('ok', (rule, instance + self._suffix, where, detail), kw))
+
+    def violation(self, rule, instance, where, detail, key=None):
+        self.n_violations += 1
+        self._calls.append(('violation', (rule, instance + self._suffix, where, detail, key or ''), {}))
+
+    def undecided(self, rule, instance, where, detail):
+        self.n_undecided += 1
+        self._calls.append(('undecided', (rule, instance + self._suffix, where, detail), {}))
+
+    def expect(self, cond, rule, instance, where, ok_detail, bad_detail, key=None, **kw):
+        if cond:
+            self.ok(rule, instance, where, ok_detail, **kw)
+        else:
+            self.violation(rule, instance, where, bad_detail, key)
+
+    def commit(self):
+        for m, a, kw in self._calls:
+            getattr(self._ctx, m)(*a, **kw)
+        self._calls = []
